@@ -1,87 +1,221 @@
-use arrow_array::{Float64Array, Int64Array, RecordBatch, StringArray, TimestampNanosecondArray};
-use arrow_schema::{DataType, Field, Schema, TimeUnit};
-use cardinalsin::ingester::{Ingester, IngesterConfig};
-use cardinalsin::metadata::{LocalMetadataClient, MetadataClient};
-use cardinalsin::query::{QueryConfig, QueryNode};
-use cardinalsin::schema::MetricSchema;
+//! csv-timeextract — correspondence + oracle for C04 (query answers equal a
+//! full scan of everything ingested).
+//!
+//! Unit level: WHERE-clause ASTs (depth <= 4, both operand orders, BETWEEN /
+//! NOT BETWEEN, nested AND/OR/NOT, Int64 / UInt64 / timestamp-literal /
+//! now()-relative / other operands, label atoms) are rendered to SQL and run
+//! through `QueryEngine::extract_time_range` / `extract_column_predicates`, or
+//! built as logical plans and run through the verif hooks; the canonical result
+//! ("range=D|lo,hi preds=...") is compared with the extracted Coq model
+//! (modelrun-timeextract, line kind X).
+//!
+//! End to end (the oracle): a real `Ingester` writes a generated dataset in a
+//! random chunking / flush order (optionally compacted) into an in-memory
+//! object store with either metadata backend; `QueryNode::query(sql)` (cold and
+//! warm, with and without adaptive indexing) is compared with the same SQL on
+//! a DataFusion `MemTable` holding all ingested rows (rows sorted, floats by
+//! bits).  The row semantics of Model/Pred.v are compared with DataFusion's
+//! three-valued evaluation of the same predicate (model line kind S).
+mod ast;
+mod e2e;
+
+use ast::*;
+use cardinalsin::query::{CacheConfig, QueryEngine, TieredCache};
 use cardinalsin::StorageConfig;
+use csv_common::{Args, Model, Report, Rng};
 use object_store::memory::InMemory;
+use serde_json::json;
 use std::sync::Arc;
 
-fn batch_ts(ts: Vec<i64>, tsty: bool) -> RecordBatch {
-    let n = ts.len();
-    let names: Vec<String> = (0..n).map(|i| if i % 2 == 0 { "cpu".into() } else { "mem".into() }).collect();
-    let hosts: Vec<String> = (0..n).map(|i| format!("h{}", i % 3)).collect();
-    let vals: Vec<f64> = (0..n).map(|i| i as f64).collect();
-    if tsty {
-        let schema = Arc::new(Schema::new(vec![
-            Field::new("timestamp", DataType::Timestamp(TimeUnit::Nanosecond, Some("UTC".into())), false),
-            Field::new("metric_name", DataType::Utf8, false),
-            Field::new("value_f64", DataType::Float64, true),
-            Field::new("host", DataType::Utf8, true),
-        ]));
-        RecordBatch::try_new(schema, vec![
-            Arc::new(TimestampNanosecondArray::from(ts).with_timezone("UTC")),
-            Arc::new(StringArray::from(names)), Arc::new(Float64Array::from(vals)), Arc::new(StringArray::from(hosts))]).unwrap()
-    } else {
-        let schema = Arc::new(Schema::new(vec![
-            Field::new("timestamp", DataType::Int64, false),
-            Field::new("metric_name", DataType::Utf8, false),
-            Field::new("value_f64", DataType::Float64, true),
-            Field::new("host", DataType::Utf8, true),
-        ]));
-        RecordBatch::try_new(schema, vec![
-            Arc::new(Int64Array::from(ts)),
-            Arc::new(StringArray::from(names)), Arc::new(Float64Array::from(vals)), Arc::new(StringArray::from(hosts))]).unwrap()
+pub const H: i64 = 3_600_000_000_000;
+
+async fn fresh_engine() -> QueryEngine {
+    let store = Arc::new(InMemory::new());
+    let cache = Arc::new(
+        TieredCache::new(CacheConfig { l1_size: 16 * 1024 * 1024, l2_size: 16 * 1024 * 1024, l2_dir: None })
+            .await
+            .expect("cache"),
+    );
+    QueryEngine::new(store, cache, &StorageConfig::default()).await.expect("engine")
+}
+
+/// canonical "range=.. preds=.." of what the implementation extracts from SQL
+async fn impl_sql(engine: &QueryEngine, sql: &str) -> String {
+    let before = chrono::Utc::now().timestamp_nanos_opt().unwrap_or(0);
+    let tr = engine.extract_time_range(sql).await;
+    let after = chrono::Utc::now().timestamp_nanos_opt().unwrap_or(0);
+    let pr = engine.extract_column_predicates(sql).await;
+    let range = match tr {
+        Ok(r) => {
+            // the "last hour" default is compared as a symbol
+            if r.end >= before && r.end <= after && r.end - r.start == H {
+                "D".to_string()
+            } else {
+                format!("{},{}", r.start, r.end)
+            }
+        }
+        Err(e) => format!("ERR({})", first_line(&e.to_string())),
+    };
+    let preds = match pr {
+        Ok(ps) => ps.iter().map(canon_cp).collect::<Vec<_>>().join(";"),
+        Err(e) => format!("ERR({})", first_line(&e.to_string())),
+    };
+    format!("range={} preds={}", range, preds)
+}
+
+fn impl_plan(case: &UnitCase) -> String {
+    let plan = match build_plan(case) {
+        Ok(p) => p,
+        Err(e) => return format!("PLAN-ERR({})", first_line(&e)),
+    };
+    let range = match QueryEngine::verif_time_bounds_of_plan(&plan) {
+        None => "D".to_string(),
+        Some((lo, hi)) => format!("{},{}", lo, hi),
+    };
+    let preds = QueryEngine::verif_predicates_of_plan(&plan).iter().map(canon_cp).collect::<Vec<_>>().join(";");
+    format!("range={} preds={}", range, preds)
+}
+
+pub fn first_line(s: &str) -> String {
+    s.lines().next().unwrap_or("").chars().take(160).collect()
+}
+
+async fn run_unit(engine: &QueryEngine, case: &UnitCase) -> String {
+    match case.mode {
+        Mode::Sql => impl_sql(engine, &unit_sql(case)).await,
+        Mode::Plan => {
+            let c = case.clone();
+            match csv_common::catch(std::panic::AssertUnwindSafe(move || impl_plan(&c))) {
+                Ok(s) => s,
+                Err(m) => format!("PANIC({})", first_line(&m)),
+            }
+        }
     }
 }
 
+fn unit_json(case: &UnitCase) -> serde_json::Value {
+    json!({
+        "level": "unit",
+        "mode": match case.mode { Mode::Sql => "sql", Mode::Plan => "plan" },
+        "model_line": model_line(case),
+        "ast": ast_line(case),
+        "sql": if case.mode == Mode::Sql { unit_sql(case) } else { String::new() },
+        "shape": case.shape,
+    })
+}
+
 fn main() {
+    let args = Args::parse();
+    if std::env::var("VERIF_SHOW_PANICS").is_err() {
+        csv_common::quiet_panics();
+    }
     let rt = tokio::runtime::Builder::new_current_thread().enable_all().build().unwrap();
-    let tsty = std::env::args().nth(1).map(|s| s == "ts").unwrap_or(false);
-    rt.block_on(async {
-        let object_store = Arc::new(InMemory::new());
-        let metadata: Arc<dyn MetadataClient> = Arc::new(LocalMetadataClient::new());
-        let storage_config = StorageConfig::default();
-        let cfg = IngesterConfig { flush_row_count: 1, ..Default::default() };
-        let ing = Ingester::new(cfg, object_store.clone(), metadata.clone(), storage_config.clone(), MetricSchema::default_metrics());
-        ing.write(batch_ts(vec![1, 5, 10], tsty)).await.unwrap();
-        ing.write(batch_ts(vec![100, 150, 200], tsty)).await.unwrap();
-        ing.write(batch_ts(vec![1000, 5000], tsty)).await.unwrap();
-        println!("chunks: {:?}", metadata.list_chunks().await.unwrap().len());
-        let qn = QueryNode::new(QueryConfig::default(), object_store.clone(), metadata.clone(), storage_config.clone()).await.unwrap();
-        let sqls = [
-            "SELECT * FROM metrics WHERE host NOT BETWEEN 'h0' AND 'h1'",
-            "SELECT * FROM metrics WHERE host BETWEEN 'h0' AND 'h1'",
-            "SELECT * FROM metrics WHERE host = 'h1' OR NOT (metric_name != 'cpu')",
-            "SELECT * FROM metrics WHERE host IN ('h1','h2') AND value_f64 > 1.5",
-            "SELECT * FROM (SELECT * FROM metrics WHERE timestamp >= 0 AND timestamp <= 1000) WHERE host = 'h1'",
-            "SELECT * FROM (SELECT * FROM metrics WHERE host = 'h1') WHERE timestamp >= 0 AND timestamp <= 1000",
-            "SELECT * FROM (SELECT * FROM metrics WHERE timestamp >= 5) WHERE timestamp <= 150",
-            "SELECT * FROM metrics WHERE timestamp >= -9223372036854775808 AND timestamp <= 10",
-            "SELECT * FROM metrics WHERE timestamp >= - 5 AND timestamp <= +10",
-            "SELECT DISTINCT host FROM metrics WHERE timestamp >= 0 AND timestamp <= 1000",
-            "SELECT host, count(*) AS c FROM metrics WHERE timestamp >= 0 AND timestamp <= 1000 GROUP BY host HAVING count(*) > 0 ORDER BY host LIMIT 5",
-            "SELECT * FROM metrics WHERE timestamp >= 0 AND timestamp <= 1000 AND host IS NULL",
-            "SELECT * FROM metrics WHERE (timestamp >= 0 AND timestamp <= 1000) AND true",
-            "SELECT * FROM metrics WHERE timestamp >= 5 + 5 AND timestamp <= 1000",
-            "SELECT * FROM metrics WHERE timestamp >= 5.0 AND timestamp <= 1000",
-            "SELECT * FROM metrics WHERE \"time\" >= 5",
-            "SELECT * FROM metrics WHERE host = 'h1'",
-        ];
-        for sql in sqls {
-            let tr = qn.engine.extract_time_range(sql).await;
-            let pr = qn.engine.extract_column_predicates(sql).await;
-            let plan = qn.engine.analyze(sql).await;
-            println!("SQL: {}", sql);
-            match plan { Ok(p) => println!("  plan: {}", p.display_indent().to_string().replace('\n', " | ")), Err(e) => println!("  plan err {}", e) }
-            println!("  range: {:?}", tr.map(|r| (r.start, r.end)));
-            println!("  preds: {:?}", pr);
-            let res = qn.query(sql).await;
-            match res {
-                Ok(b) => println!("  rows: {}", b.iter().map(|x| x.num_rows()).sum::<usize>()),
-                Err(e) => println!("  query err: {}", e),
-            }
+    let mut model = Model::spawn(&args.model);
+    let mut report = Report::new("C04");
+    let thorough = args.thorough();
+
+    if let Some(path) = &args.replay {
+        let txt = std::fs::read_to_string(path).expect("replay file");
+        let v: serde_json::Value = serde_json::from_str(&txt).expect("replay json");
+        let case = if v.get("case").map(|c| c.is_object()).unwrap_or(false) { v["case"].clone() } else { v.clone() };
+        let code = rt.block_on(replay(&case, &mut model));
+        std::process::exit(code);
+    }
+
+    // ------------------------------------------------------------ unit level
+    let engine = rt.block_on(fresh_engine());
+    let n_unit = if thorough { 60_000 } else { 5_000 };
+    let mut rng = Rng::new(args.seed);
+    let mut cases: Vec<(String, UnitCase)> = unit_corpus().into_iter().map(|c| ("corpus".to_string(), c)).collect();
+    for _ in 0..n_unit {
+        let mut r = rng.fork();
+        cases.push(("random".to_string(), gen_unit_case(&mut r)));
+    }
+    for (origin, case) in cases {
+        let line = model_line(&case);
+        let nontrivial = case.filters.iter().any(|f| f.mentions_ts() || f.has_label());
+        let key = format!("{:?}|{}", case.mode, line);
+        report.case(if nontrivial { Some(&key) } else { None });
+        report.bump(&format!("unit.origin.{}", origin));
+        report.bump(&format!("unit.mode.{:?}", case.mode));
+        for f in &case.filters {
+            f.histogram(&mut report);
         }
-    });
+        let impl_out = rt.block_on(run_unit(&engine, &case));
+        report.impl_runs += 1;
+        let (differs, model_out) = model.differs(&line, &impl_out);
+        if impl_out.contains("range=D") {
+            report.bump("unit.range.default");
+        } else if impl_out.contains("-9223372036854775808,9223372036854775807") {
+            report.bump("unit.range.unbounded");
+        } else {
+            report.bump("unit.range.bounded");
+        }
+        if !impl_out.ends_with("preds=") {
+            report.bump("unit.preds.nonempty");
+        }
+        report.sample(json!({"case": unit_json(&case), "impl": impl_out, "model": model_out}));
+        if differs {
+            // shrink the predicate trees, keeping the disagreement
+            let mut cur = case.clone();
+            let mut progress = true;
+            let mut budget = 200;
+            while progress && budget > 0 {
+                progress = false;
+                for cand in shrink_unit(&cur) {
+                    budget -= 1;
+                    let i = rt.block_on(run_unit(&engine, &cand));
+                    if model.differs(&model_line(&cand), &i).0 {
+                        cur = cand;
+                        progress = true;
+                        break;
+                    }
+                    if budget == 0 {
+                        break;
+                    }
+                }
+            }
+            let si = rt.block_on(run_unit(&engine, &cur));
+            let sm = model.ask(&model_line(&cur));
+            // does the disagreement make the implementation unsound on a concrete row?
+            let oracle_failed = rt.block_on(e2e::oracle_for_unit(&cur));
+            report.disagreement(json!({
+                "correspondence": "Model/TimeExtract.v (extract / plan_preds) vs QueryEngine::extract_time_range / extract_column_predicates",
+                "case": unit_json(&case), "impl": impl_out, "model": model_out,
+                "shrunk": unit_json(&cur), "shrunk_impl": si, "shrunk_model": sm,
+                "oracle_failed": oracle_failed,
+            }));
+        }
+    }
+
+    // ---------------------------------------------------------- end to end
+    rt.block_on(e2e::run_all(&args, &mut model, &mut report));
+
+    report.notes.push(format!("model calls: {}", model.calls));
+    report.write(&args.out);
+}
+
+async fn replay(case: &serde_json::Value, model: &mut Model) -> i32 {
+    match case["level"].as_str().unwrap_or("") {
+        "unit" => {
+            let ast = case["ast"].as_str().unwrap_or("").to_string();
+            let mode = if case["mode"].as_str() == Some("plan") { Mode::Plan } else { Mode::Sql };
+            let shape = case["shape"].as_u64().unwrap_or(0) as usize;
+            let Some(uc) = parse_ast_line(&ast, mode, shape) else {
+                println!("cannot parse case {}", ast);
+                return 1;
+            };
+            let line = model_line(&uc);
+            let engine = fresh_engine().await;
+            let i = run_unit(&engine, &uc).await;
+            let m = model.ask(&line);
+            println!("case : {}\nsql  : {}\nimpl : {}\nmodel: {}", line, if mode == Mode::Sql { unit_sql(&uc) } else { "(plan)".into() }, i, m);
+            if !model.is_null() && i != m { 1 } else { 0 }
+        }
+        "e2e" | "e2e-corpus" => e2e::replay(case, model).await,
+        other => {
+            println!("unknown replay level {:?}", other);
+            1
+        }
+    }
 }
